@@ -39,7 +39,8 @@ Definition canon_body (c : canon) (body : bytes) : bytes :=
 (* Message::body_raw: the octets after the blank line, plus CRLF *)
 Definition body_raw (formatted_body : bytes) : bytes := formatted_body ++ CRLF.
 
-(* ---- dkim_canonicalize_headers_relaxed: mutually recursive name / value over the serialized fields ---- *)
+(* ---- dkim_canonicalize_headers_relaxed: the name / value pass over the serialized fields (a loop in dkim.rs since the repair of F46; written
+        here as the recursion it replaced - same function, fuel = length of the input) ---- *)
 Fixpoint skip_wsp (l : bytes) : bytes := match l with c :: r => if wsp c then skip_wsp r else l | [] => [] end.
 
 (* fuel = length of the input; in_value: after the colon *)
